@@ -83,6 +83,8 @@ async fn resolve_and_build_response(args: ListenArgs, query: Message) -> Message
             // so that this whole request sees a consistent version of the zones
             // even if they get updated in the middle of processing.
             let zones = args.zones_lock.read().await;
+            #[cfg(resolved_verif)]
+            resolved::verif::gate("query.locked", query.header.id.into());
 
             let (metrics, answer) = resolve(
                 query.header.recursion_desired && response.header.recursion_available,
@@ -94,6 +96,8 @@ async fn resolve_and_build_response(args: ListenArgs, query: Message) -> Message
                 question,
             )
             .await;
+            #[cfg(resolved_verif)]
+            resolved::verif::gate("query.resolved", query.header.id.into());
 
             DNS_RESOLVER_AUTHORITATIVE_HIT_TOTAL.inc_by(metrics.authoritative_hits);
             DNS_RESOLVER_OVERRIDE_HIT_TOTAL.inc_by(metrics.override_hits);
@@ -337,6 +341,8 @@ async fn reload_task(zones_lock: Arc<RwLock<Zones>>, args: Args) {
 
     loop {
         stream.recv().await;
+        #[cfg(resolved_verif)]
+        resolved::verif::gate("reload.signal", resolved::verif::RELOAD_TAG);
 
         tracing::error_span!("SIGUSR1").in_scope(|| tracing::info!("received"));
         let start = Instant::now();
@@ -349,7 +355,11 @@ async fn reload_task(zones_lock: Arc<RwLock<Zones>>, args: Args) {
         .instrument(tracing::error_span!("SIGUSR1"))
         .await
         {
+            #[cfg(resolved_verif)]
+            resolved::verif::gate("reload.want_lock", resolved::verif::RELOAD_TAG);
             let mut lock = zones_lock.write().await;
+            #[cfg(resolved_verif)]
+            resolved::verif::gate("reload.locked", resolved::verif::RELOAD_TAG);
             *lock = zones;
             tracing::error_span!("SIGUSR1").in_scope(
                 || tracing::info!(duration_seconds = %start.elapsed().as_secs_f64(), "done - success"),
@@ -359,6 +369,8 @@ async fn reload_task(zones_lock: Arc<RwLock<Zones>>, args: Args) {
                 || tracing::info!(duration_seconds = %start.elapsed().as_secs_f64(), "done - failure"),
             );
         }
+        #[cfg(resolved_verif)]
+        resolved::verif::gate("reload.done", resolved::verif::RELOAD_TAG);
     }
 }
 
@@ -495,6 +507,9 @@ struct Args {
 #[tokio::main]
 async fn main() {
     let args = Args::parse();
+
+    #[cfg(resolved_verif)]
+    resolved::verif::install();
 
     begin_logging();
 
